@@ -1,5 +1,7 @@
 import QmiModel.Model.Task
 import QmiModel.Lemmas.C10Inv
+import QmiModel.Model.LoopTask
+import QmiModel.Lemmas.C10Loop
 /-!
 # C10 — task lifecycle: run() at most once and only after start; join reports the outcome; settings newest wins
 
@@ -29,18 +31,8 @@ theorem run_at_most_once_hist {tr : List Act} {s : State} (h : exec init tr = so
 
 /-- `run()` has been invoked only if a `start()` went through -/
 theorem run_only_after_start {s : State} (h : Reachable s) (hr : 0 < s.runs) : s.started = true := by
-  have hi := inv_reachable h
-  have := hi.runs_def
-  split at this
-  · rename_i hc
-    rw [hi.started_iff]
-    rcases hc with hc | hc | hc | hc | hc
-    · exact Or.inl (hi.inside (Or.inr (Or.inl hc)))
-    · exact Or.inl (hi.inside (Or.inr (Or.inr (Or.inl hc))))
-    · exact Or.inl (hi.inside (Or.inr (Or.inr (Or.inr hc))))
-    · exact Or.inr (Or.inl hc)
-    · exact Or.inr (Or.inr hc)
-  · omega
+  obtain ⟨⟩ := inv_reachable h
+  grind
 
 /-- … as a statement about histories: every invocation of `run()` is preceded by a `start_task` region that was
 taken in state READY_TO_RUN (and therefore returned normally) -/
@@ -73,17 +65,8 @@ theorem stop_first_never_runs {s : State} (h : Reachable s) (hs : s.stopFirst = 
   have hsf := exec_stopFirst_mono he hs
   have hi := inv_reachable (reachable_exec h he)
   refine ⟨?_, hsf⟩
-  have hst := hi.stopFirst_iff.1 hsf
-  have := hi.runs_def
-  split at this
-  · rename_i hc
-    rcases hc with hc | hc | hc | hc | hc
-    · have := hi.inside (Or.inr (Or.inl hc)); simp_all
-    · have := hi.inside (Or.inr (Or.inr (Or.inl hc))); simp_all
-    · have := hi.inside (Or.inr (Or.inr (Or.inr hc))); simp_all
-    · simp_all
-    · simp_all
-  · exact this
+  obtain ⟨⟩ := hi
+  grind
 
 /-- … as a statement about histories: if a `stop_task` region is executed at a moment when no `start_task` has
 gone through, then no invocation of `run()` occurs anywhere in the history — neither before nor after -/
@@ -94,18 +77,16 @@ theorem stop_first_never_runs_hist {p1 p2 : List Act} {s1 s : State}
   obtain ⟨s2, hs2, h3⟩ := exec_cons.1 h2
   have hi := inv_reachable ⟨p1, h1⟩
   -- the stop region is enabled only on an available runner; not started ⇒ READY_TO_RUN or already stopped
-  have hfree : s1.free = true := by
-    simp only [step] at hs2
-    split at hs2
-    · assumption
-    · contradiction
   have hup : s1.phase = .up := by
-    simp only [State.free, Bool.and_eq_true, beq_iff_eq] at hfree; exact hfree.1
+    cases hc : s1.stopCtx with
+    | none => simp [step, hc] at hs2
+    | some c => exact (stopCtx_some hc).1
   have hsf2 : s2.stopFirst = true := by
     rw [step_stopFirst hs2]
     have hup' := hi.up_st hup
     have hst := hi.started_iff
-    have hsf := hi.stopFirst_iff
+    have hsf := hi.stopped_sf
+    have hsf' := hi.sf_st
     cases hst1 : s1.st <;> simp_all
   have hr2 : Reachable s2 := reachable_step ⟨p1, h1⟩ hs2
   have hfin := (stop_first_never_runs hr2 hsf2 p2 s h3).1
@@ -114,7 +95,7 @@ theorem stop_first_never_runs_hist {p1 p2 : List Act} {s1 s : State}
   simp only [init] at this
   omega
 
-example : ∃ s, exec init [.initOk, .ctorWait, .ctorGet, .stopRegion, .startCheck, .wake, .threadEnd, .join] = some s ∧
+example : ∃ s, exec init [.initOk, .ctorWait, .ctorGet, .stopRegion, .startCheck, .wake, .threadEnd, .join, .joinSet] = some s ∧
     s.stopFirst = true ∧ s.joined = true := ⟨_, rfl, by decide⟩
 
 /-! ## a second start() is refused -/
@@ -135,7 +116,7 @@ theorem start_after_stop_refused {s : State} (h : Reachable s) (hf : s.free = tr
   have hi := inv_reachable h
   have hne : s.st ≠ .ready := by
     intro hr
-    have := hi.stopFirst_iff.1 hs
+    have := hi.sf_st hs
     simp_all
   simp [step, res, hf, hne]
 
@@ -150,7 +131,8 @@ theorem first_start_accepted {s : State} (h : Reachable s) (hf : s.free = true)
   have hst : s.st = .ready := by
     have h1 := hi.up_st hup.1
     have h2 := hi.started_iff
-    have h3 := hi.stopFirst_iff
+    have h3 := hi.stopped_sf
+    have h3' := hi.sf_st
     cases hc : s.st <;> simp_all
   refine ⟨{ s with rpc := .startMid }, { s with st := .running, rpc := .idle, started := true }, ?_, ?_, ?_, ?_, rfl, rfl⟩
   · simp [step, hf, hst]
@@ -158,13 +140,29 @@ theorem first_start_accepted {s : State} (h : Reachable s) (hf : s.free = true)
   · simp [step, hup.1, hst]
   · simp [res, hst]
 
-/-- the `assert state == READY_TO_RUN` inside `start_task` never fires, and `start_task` never blocks -/
-theorem start_never_asserts {s : State} (h : Reachable s) (hm : s.rpc = .startMid) :
+/- Full statement (false once `stop_task` may also be called outside the RPC worker, see the witness below):
+     theorem start_never_asserts (h : Reachable s) (hm : s.rpc = .startMid) :
+         (step s .startKick).isSome = true ∧ res s .startKick = .unit
+   It holds as long as every stop goes through the runner (missing hypothesis: `s.shut = false`). -/
+/-- the `assert state == READY_TO_RUN` inside `start_task` never fires, and `start_task` never blocks — provided no
+`stop_task` has been issued outside the RPC worker (`_request_shutdown`) -/
+theorem start_never_asserts_partial {s : State} (h : Reachable s) (hm : s.rpc = .startMid) (hns : s.shut = false) :
     (step s .startKick).isSome = true ∧ res s .startKick = .unit := by
   have hi := inv_reachable h
-  have hst := hi.startMid hm
+  have hst : s.st = .ready := by
+    rcases hi.startMid hm with h1 | ⟨h1, _⟩
+    · exact h1
+    · simp [hns] at h1
   have hup := hi.rpc_up (by simp [hm])
   simp [step, res, hst, hup, hm]
+
+/-- negation witness of the full statement: a `_request_shutdown` that slips in between the two regions of
+`start()` makes `start_task` fail its `assert` (AssertionError instead of a usage error).  `QMI_Thread.shutdown()`
+is never called on a task thread by the repository's own code, and the property quantifies over operations issued
+through the proxy, so this is recorded, not reported. -/
+theorem start_asserts_under_shutdown :
+    ∃ s, exec init [.initOk, .ctorWait, .ctorGet, .startCheck, .extStopRegion] = some s ∧ s.rpc = .startMid ∧
+      res s .startKick = .assertionError := ⟨_, rfl, by decide⟩
 
 example : ∃ s, exec init [.initOk, .ctorWait, .ctorGet, .startCheck, .startKick] = some s ∧
     s.free = true ∧ s.started = true := ⟨_, rfl, by decide⟩
@@ -172,55 +170,78 @@ example : ∃ s, exec init [.initOk, .ctorWait, .ctorGet, .startCheck, .startKic
 /-! ## join() -/
 
 /-- `join()` returns (or raises) only when the thread has ended, and then either `run()` was invoked exactly once
-and has ended, or a stop came first and `run()` was never invoked -/
+and has ended, or a stop came first and `run()` was never invoked (in whatever composition the join runs:
+called as such, inside `__exit__`, inside `release_rpc_object`) -/
 theorem join_returns_only_when_finished {s s' : State} (h : Reachable s) (hj : step s .join = some s') :
     s.pc = .ended ∧ ((s.runs = 1 ∧ s.runOutcome.isSome = true) ∨ (s.runs = 0 ∧ s.stopFirst = true)) := by
-  have hi := inv_reachable h
-  simp only [step, State.free, Bool.and_eq_true, beq_iff_eq] at hj
-  split at hj
-  · rename_i hc
-    obtain ⟨⟨hup, _⟩, hpc⟩ := hc
-    refine ⟨hpc, ?_⟩
-    have haft := hi.after (Or.inr hpc)
-    have hup' := hi.up_st hup
-    have hruns := hi.runs_def
-    rcases haft with hst | hst | hst | hst
-    · exact absurd hst hup'.2
-    · right
-      refine ⟨?_, hi.stopFirst_iff.2 hst⟩
-      simp [hpc, hst, Pc.ranOut?] at hruns
-      exact hruns
-    · left
-      obtain ⟨o, ho, _⟩ := hi.out_completed hst
-      simp [hst] at hruns
-      exact ⟨hruns, by simp [ho]⟩
-    · left
-      have ho := hi.out_excRun hst
-      simp [hst] at hruns
-      exact ⟨hruns, by simp [ho]⟩
-  · contradiction
+  obtain ⟨hup, hpc⟩ := join_enabled hj
+  obtain ⟨⟩ := inv_reachable h
+  grind [Pc.ranOut?]
 
 /-- `join()` raises the task-run error exactly when `run()` ended with an exception other than the task-stop
 exception; otherwise it returns normally — in particular its internal `assert` never fires -/
 theorem join_raises_iff_exception {s s' : State} (h : Reachable s) (hj : step s .join = some s') :
     (res s .join = .taskRunError ↔ s.runOutcome = some .otherExc) ∧
     (res s .join = .unit ↔ s.runOutcome ≠ some .otherExc) := by
+  obtain ⟨hup, hpc⟩ := join_enabled hj
   have hi := inv_reachable h
-  simp only [step, State.free, Bool.and_eq_true, beq_iff_eq] at hj
-  split at hj
-  · rename_i hc
-    obtain ⟨⟨hup, _⟩, hpc⟩ := hc
+  have haft := hi.after (Or.inr hpc)
+  have hup' := hi.up_st hup
+  rcases haft with hst | hst | hst | hst
+  · exact absurd hst hup'.2
+  · have ho := hi.out_none (by simp [hst])
+    simp [res, hst, ho]
+  · obtain ⟨o, ho, hne⟩ := hi.out_completed hst
+    simp [res, hst, ho, hne]
+  · have ho := hi.out_excRun hst
+    simp [res, hst, ho]
+
+/-- once a join has completed (`_joined` written), the task is over for good: `_joined` holds, and in every later
+state the thread has ended, `run()` has not been invoked again (the history since contains no `runEnter`), it ran
+at most once in all, and `is_running()` answers false -/
+theorem after_join_quiescent {s s' : State} (h : Reachable s) (hj : step s .joinSet = some s') :
+    s'.joined = true ∧ ∀ tr s'', exec s' tr = some s'' →
+      s''.joined = true ∧ s''.pc = .ended ∧ tr.count .runEnter = 0 ∧ s''.runs = s.runs ∧ s''.runs ≤ 1 ∧
+      res s'' .isRunning = .bool false := by
+  obtain ⟨hup, c, hc⟩ := joinSet_enabled hj
+  have hi := inv_reachable h
+  have hpc := hi.joinMid_ended c hc
+  have hjd : s'.joined = true := by
+    rw [step_joined hj]
     have haft := hi.after (Or.inr hpc)
     have hup' := hi.up_st hup
     rcases haft with hst | hst | hst | hst
     · exact absurd hst hup'.2
-    · have ho := hi.out_none (Or.inr (Or.inr (Or.inr (Or.inr (Or.inr (Or.inl hst))))))
-      simp [res, hst, ho]
-    · obtain ⟨o, ho, hne⟩ := hi.out_completed hst
-      simp [res, hst, ho, hne]
-    · have ho := hi.out_excRun hst
-      simp [res, hst, ho]
-  · contradiction
+    all_goals simp [hst]
+  refine ⟨hjd, ?_⟩
+  intro tr s'' he
+  have hr' := reachable_step h hj
+  obtain ⟨hj'', hcount⟩ := exec_no_run_after_joined hr' hjd he
+  have hr'' := reachable_exec hr' he
+  have hi'' := inv_reachable hr''
+  have hpc'' := hi''.joined_ended hj''
+  have hruns : s''.runs = s.runs := by
+    have h1 := exec_runs he
+    have h2 := step_runs hj
+    simp at h2
+    omega
+  refine ⟨hj'', hpc'', hcount, hruns, run_at_most_once hr'', ?_⟩
+  have := hi''.after (Or.inr hpc'')
+  rcases this with hst | hst | hst | hst <;> simp [res, hst]
+
+/-- between the `get_state` region of a join and its completion nothing can change the outcome: the thread has
+ended, so the completion is enabled and records `_joined` -/
+theorem join_completes {s : State} (h : Reachable s) {c : Comp} (hc : s.rpc = .joinMid c) :
+    ∃ s', step s .joinSet = some s' ∧ s'.joined = true ∧ s'.rpc = .idle ∧
+      s'.phase = (if c = .release then .removed else .up) := by
+  have hi := inv_reachable h
+  have hup := hi.rpc_up (by simp [hc])
+  have hpc := hi.joinMid_ended c hc
+  have haft := hi.after (Or.inr hpc)
+  have hup' := hi.up_st hup
+  rcases haft with hst | hst | hst | hst
+  · exact absurd hst hup'.2
+  all_goals (simp only [step, hc, hup, hst, if_true]; exact ⟨_, rfl, rfl, rfl, rfl⟩)
 
 /-- a raise of the task-stop exception is not reported: concrete history -/
 example : ∃ s, exec init [.initOk, .ctorWait, .ctorGet, .startCheck, .startKick, .wake, .runEnter,
@@ -235,43 +256,50 @@ example : ∃ s, exec init [.initOk, .ctorWait, .ctorGet] = some s ∧ step s .j
   ⟨_, rfl, by decide⟩
 
 /-- after a stop that came first the thread is never stuck short of its end: it has ended (join is enabled on an
-idle runner) or its next action (`wake` out of the READY_TO_RUN wait, or the thread's end) is enabled —
-`join()` after stop-before-start cannot wait for ever -/
+idle runner) or its next action (the end of a construction still in progress, `wake` out of the READY_TO_RUN wait,
+or the thread's end) is enabled — `join()` after stop-before-start cannot wait for ever -/
 theorem join_after_stop_first_not_stuck {s : State} (h : Reachable s) (hs : s.stopFirst = true) :
-    s.pc = .ended ∨ (step s .wake).isSome = true ∨ (step s .threadEnd).isSome = true := by
+    s.pc = .ended ∨ (step s .initOk).isSome = true ∨ (step s .wake).isSome = true ∨
+      (step s .threadEnd).isSome = true := by
   have hi := inv_reachable h
-  have hst := hi.stopFirst_iff.1 hs
-  have h1 := hi.init_iff
+  have hst := hi.sf_st hs
+  have h1 := hi.init_st
+  have h1' := hi.initial_pc
   have h2 := hi.inside
-  cases hpc : s.pc <;> simp_all [step, Pc.ranOut?]
+  have h3 := hi.waiting
+  cases hpc : s.pc <;> rcases hst with hst | ⟨hst, _⟩ <;> simp_all [step, Pc.ranOut?]
 
 /-- what the driver's deadlock judgement relies on: `threadCanMove` is sound (some thread action is enabled) -/
 theorem threadCanMove_sound {s : State} (h : threadCanMove s = true) :
-    ∃ a, (a = .initOk ∨ a = .wake ∨ a = .runEnter ∨ a = .updPop ∨ a = .mark ∨ a = .threadEnd) ∧
+    ∃ a, (a = .initOk ∨ a = .wake ∨ a = .runEnter ∨ a = .updPop ∨ a = .updPub ∨ a = .mark ∨ a = .threadEnd) ∧
       (step s a).isSome = true := by
   unfold threadCanMove at h
-  split at h
-  · rename_i hpc
-    refine ⟨.initOk, Or.inl rfl, ?_⟩
+  cases hpc : s.pc with
+  | init =>
+    refine ⟨.initOk, by simp, ?_⟩
     simp only [step, hpc]
     cases s.st <;> rfl
-  · rename_i hpc
+  | waiting =>
     refine ⟨.wake, by simp, ?_⟩
-    have : s.st ≠ .ready := by simpa using h
+    have : s.st ≠ .ready := by simpa [hpc] using h
     simp only [step, hpc]
     by_cases hr : s.st = .running <;> simp [this, hr]
-  · rename_i hpc; exact ⟨.runEnter, by simp, by simp [step, hpc]⟩
-  · contradiction
-  · rename_i hpc
+  | goRun => exact ⟨.runEnter, by simp, by simp [step, hpc]⟩
+  | inRun => simp [hpc] at h
+  | inUpd =>
     refine ⟨.updPop, by simp, ?_⟩
     simp only [step, hpc]
     cases s.slot <;> rfl
-  · rename_i o hpc
+  | inPub =>
+    refine ⟨.updPub, by simp, ?_⟩
+    simp only [step, hpc]
+    cases s.settings <;> rfl
+  | ranOut o =>
     refine ⟨.mark, by simp, ?_⟩
     simp only [step, hpc]
     cases o <;> rfl
-  · rename_i hpc; exact ⟨.threadEnd, by simp, by simp [step, hpc]⟩
-  · contradiction
+  | exiting => exact ⟨.threadEnd, by simp, by simp [step, hpc]⟩
+  | ended => simp [hpc] at h
 
 /-! ## is_running -/
 
@@ -288,7 +316,8 @@ theorem is_running_iff_running {s : State} (h : Reachable s) (_hf : s.free = tru
     · intro hpc; have := hi.after (Or.inr hpc); simp_all
   · rintro ⟨hs, h1, h2⟩
     have hst := hi.started_iff.1 hs
-    have hinit := hi.init_iff
+    have hinit := hi.init_st
+    have hinit' := hi.initial_pc
     have hw := hi.waiting
     have hin := hi.inside
     have h3 := hi.out_pc
@@ -328,7 +357,8 @@ theorem settings_newest_wins {tr : List Act} {s : State} (h : exec init tr = som
   | none => simp [hslot] at hsome
   | some v =>
     have := hi.slot_last v hslot
-    refine ⟨v, { s with pc := .inRun, slot := none, settings := some v, posted := false }, ?_, ?_, ?_, rfl, rfl, rfl⟩
+    refine ⟨v, { s with pc := .inPub, slot := none, settings := some v, posted := false,
+                         adopted := s.adopted ++ [v] }, ?_, ?_, ?_, rfl, rfl, rfl⟩
     · simp only [lastPost, ← hl, this]
     · simp [step, hpc, hslot]
     · simp [res, hslot]
@@ -351,11 +381,230 @@ theorem settings_change_only_by_update {s s' : State} {a : Act} (hs : step s a =
   rw [step_settings hs]
   cases a <;> simp_all
 
-/-- two posts, the second one between the test and the `pop`: the task gets the second -/
+/-- two posts, the second one between the test and the `pop`: the task gets the second, and publishes it -/
 example : ∃ s, exec init [.initOk, .ctorWait, .ctorGet, .setSettings 1, .startCheck, .startKick, .wake, .runEnter,
-    .updCheck, .setSettings 2, .updPop] = some s ∧ s.settings = some 2 ∧ s.slot = none := ⟨_, rfl, by decide⟩
+    .updCheck, .setSettings 2, .updPop, .updPub] = some s ∧ s.settings = some 2 ∧ s.slot = none ∧
+    s.published = [2] := ⟨_, rfl, by decide⟩
+
+/-! ## publication of adopted settings (`sig_settings_updated`) -/
+
+/-- the values published are exactly the values adopted, in order: a publication happens once per successful
+update, none without one (while the task is between adoption and publication the newest adopted value is the one
+about to be published) -/
+theorem published_exactly_adopted {s : State} (h : Reachable s) :
+    s.adopted = s.published ++ (if s.pc = .inPub then s.settings.toList else []) :=
+  (inv_reachable h).pub_def
+
+/-- the publication that follows an adoption carries the adopted value, and completes the update -/
+theorem publish_carries_adopted_value {s : State} (h : Reachable s) (hpc : s.pc = .inPub) :
+    ∃ v s', s.settings = some v ∧ step s .updPub = some s' ∧ res s .updPub = .val (some v) ∧
+      s'.published = s.published ++ [v] ∧ s'.adopted = s'.published ∧ s'.pc = .inRun := by
+  have hi := inv_reachable h
+  have hs := hi.inPub_settings hpc
+  cases hv : s.settings with
+  | none => simp [hv] at hs
+  | some v =>
+    have hp := hi.pub_def
+    refine ⟨v, { s with pc := .inRun, published := s.published ++ [v] }, rfl, ?_, ?_, rfl, ?_, rfl⟩
+    · simp [step, hpc, hv]
+    · simp [res, hv]
+    · simp [hp, hpc, hv]
+
+/-- an update that finds nothing posted publishes nothing (it changes nothing at all) -/
+theorem update_false_publishes_nothing {s s' : State} (hs : step s .updCheck = some s') (hf : res s .updCheck = .bool false) :
+    s' = s := by
+  simp only [res, Res.bool.injEq] at hf
+  simp only [step] at hs
+  split at hs
+  · simp [hf] at hs; exact hs.symm
+  · contradiction
+
+/-! ## status -/
+
+/-- `get_status()` returns what the task body wrote to `self.status` last -/
+theorem get_status_last_written {tr : List Act} {s : State} (h : exec init tr = some s) :
+    res s .getStatus = .val (lastStatus tr) := by
+  have := exec_status h
+  simp only [init] at this
+  simp only [res, lastStatus, this]
+
+/-! ## the compositions `__exit__` and `release_rpc_object` -/
+
+/-- the `join()` of a composition is always preceded by the effect of its `stop()`: the stop flag is raised, or the
+task was stopped before start (so that join cannot wait for a task that was never told to stop) -/
+theorem composition_joins_after_stop {s : State} {c : Comp} (h : Reachable s) (hc : s.rpc = .compJoin c) :
+    s.stopReq = true ∨ s.stopFirst = true := by
+  have hi := inv_reachable h
+  rcases hi.compJoin_stop c hc with h1 | h1
+  · exact Or.inl h1
+  · exact Or.inr (hi.stopped_sf h1)
+
+/-- after `release_rpc_object` (removal of the task from the context, joined before or not) the runner is gone for
+good, the thread has ended, `_joined` holds and `run()` ran at most once -/
+theorem removed_means_over {s : State} (h : Reachable s) (hr : s.phase = .removed) :
+    s.pc = .ended ∧ s.joined = true ∧ s.runs ≤ 1 ∧ s.rpc = .idle ∧
+    ∀ tr s', exec s tr = some s' → s'.phase = .removed ∧ s'.runs = s.runs := by
+  have hi := inv_reachable h
+  have hj := hi.removed_joined hr
+  have hidle : s.rpc = .idle := by
+    cases hrpc : s.rpc <;> first | rfl | (have := hi.rpc_up (by simp [hrpc]); simp_all)
+  refine ⟨hi.joined_ended hj, hj, run_at_most_once h, hidle, ?_⟩
+  intro tr s' he
+  obtain ⟨_, hcount⟩ := exec_no_run_after_joined h hj he
+  have hruns := exec_runs he
+  refine ⟨?_, by omega⟩
+  exact exec_removed_stable he hr
+
+/-- `__exit__` returns (or raises) only by way of its join: thread ended, task over — same guarantee as `join()` -/
+theorem exit_returns_only_when_finished {s s' : State} (h : Reachable s) (hc : s.rpc = .joinMid .exit)
+    (hj : step s .joinSet = some s') :
+    s.pc = .ended ∧ s'.rpc = .idle ∧ s'.phase = .up ∧ s'.joined = true := by
+  have hi := inv_reachable h
+  obtain ⟨s2, h2, hjd, hidle, hph⟩ := join_completes h hc
+  rw [hj] at h2
+  simp only [Option.some.injEq] at h2
+  subst h2
+  exact ⟨hi.joinMid_ended _ hc, hidle, by simpa using hph, hjd⟩
+
+example : ∃ s, exec init [.initOk, .ctorWait, .ctorGet, .startCheck, .startKick, .wake, .runEnter, .exitBegin,
+    .stopRegion, .stopSet, .runEnd .stopExc, .mark, .threadEnd, .join, .joinSet, .releaseBegin] = some s ∧
+    s.phase = .removed ∧ s.runs = 1 := ⟨_, rfl, by decide⟩
+example : ∃ s, exec init [.initOk, .ctorWait, .ctorGet, .releaseBegin, .stopRegion, .wake, .threadEnd, .join, .joinSet] = some s ∧
+    s.phase = .removed ∧ s.runs = 0 ∧ s.joined = true := ⟨_, rfl, by decide⟩
 example : postedSince [.setSettings 1, .updCheck, .updPop, .updCheck] = false ∧
     postedSince [.setSettings 1, .updCheck, .updPop, .setSettings 2] = true ∧
     lastPost [.setSettings 1, .setSettings 2, .updPop] = some 2 := by decide
+
+/-! ## the task body is unconstrained: every theorem above covers every `run()`, in particular `QMI_LoopTask.run` -/
+
+/-- inside `run()` the body may at any moment test for new settings, write its status, ask its own runner to stop
+(`QMI_LoopTask`, policy TERMINATE) or end in any of the three ways: the lifecycle model constrains the body in no
+way, so what is proved above holds for every task class -/
+theorem body_unconstrained {s : State} (h : s.pc = .inRun) :
+    (step s .updCheck).isSome = true ∧ (∀ v, (step s (.setStatus v)).isSome = true) ∧
+    (step s .extStopRegion).isSome = true ∧ (∀ o, (step s (.runEnd o)).isSome = true) := by
+  refine ⟨?_, ?_, ?_, ?_⟩
+  · simp only [step, h, if_true]; cases s.slot.isSome <;> rfl
+  · intro v; simp [step, h]
+  · simp only [step, h]; cases s.st <;> simp
+  · intro o; simp [step, h]
+
+/-- a stop the running task asks for itself has exactly the effect of a stop request: the flag is raised (state
+RUNNING is left to the thread's own final region) -/
+theorem self_stop_raises_flag {s s1 : State} (h : Reachable s) (hpc : s.pc = .inRun)
+    (h1 : step s .extStopRegion = some s1) :
+    s1.st = .running ∧ res s .extStopRegion = .pending ∧
+    ∃ s2, step s1 .extStopSet = some s2 ∧ s2.stopReq = true ∧ s2.st = .running := by
+  have hi := inv_reachable h
+  have hst := hi.inside (Or.inr (Or.inl hpc))
+  simp only [step, hst, hpc] at h1
+  simp only [reduceCtorEq, if_false, Option.some.injEq] at h1
+  subst h1
+  refine ⟨rfl, by simp [res, hst, hpc], ?_⟩
+  refine ⟨_, by simp only [step, Nat.zero_lt_succ, if_true]; rfl, rfl, rfl⟩
+
+/-! ## `QMI_LoopTask.run` (model: `Model/LoopTask.lean`) — all histories of the loop, any number of iterations -/
+open QmiModel.LoopTask
+
+/-- `loop_finalize` runs exactly once on every exit path of `run()` once `loop_prepare` has returned — stop
+request seen at the top of the loop, task-stop exception out of `sleep` or of any hook, any other exception out of
+any hook, policy TERMINATE — and not at all if `loop_prepare` itself raised -/
+theorem loop_finalize_exactly_once {p : Nat} {pol : Policy} {tr : List LAct} {s : LState} {o : Outcome}
+    (h : lexec (linit p pol) tr = some s) (hd : s.lpc = .done o) :
+    s.finalizes = (if s.prepared then 1 else 0) := by
+  have hi := linv_exec (linv_init p pol) h
+  have := hi.fin_def
+  simp [hd, LPc.isDone] at this
+  simpa using this
+
+/-- … and never more than once, and never before `loop_prepare` returned, in any state of any history -/
+theorem loop_finalize_at_most_once {p : Nat} {pol : Policy} {tr : List LAct} {s : LState}
+    (h : lexec (linit p pol) tr = some s) :
+    s.finalizes ≤ 1 ∧ (0 < s.finalizes → s.prepared = true ∧ s.lpc.isDone = true) := by
+  have hi := linv_exec (linv_init p pol) h
+  have := hi.fin_def
+  split at this <;> simp_all
+
+/-- settings are picked up at iteration boundaries only: whenever `loop_iteration` is about to be called, exactly
+one `update_settings` call has been made for this iteration, and `process_new_settings` has been called once for
+every update that returned True (so the iteration never runs on adopted-but-unprocessed settings) -/
+theorem loop_settings_at_iteration_boundary {p : Nat} {pol : Policy} {tr : List LAct} {s : LState}
+    (h : lexec (linit p pol) tr = some s) (hi' : s.lpc = .iter) :
+    s.nUpd = s.nIter + 1 ∧ s.nProc = s.updTrue := by
+  have hi := linv_exec (linv_init p pol) h
+  exact ⟨hi.early_eq (by simp [hi', LPc.early]), hi.proc_eq (by simp [hi'])⟩
+
+/-- between iterations the counts agree: one `update_settings` per `loop_iteration`, one `process_new_settings`
+per successful update, one publication of `sig_status_updated` per `update_status` that returned True -/
+theorem loop_counts_at_top {p : Nat} {pol : Policy} {tr : List LAct} {s : LState}
+    (h : lexec (linit p pol) tr = some s) (ht : s.lpc = .top) :
+    s.nUpd = s.nIter ∧ s.nProc = s.updTrue ∧ s.nPubStatus = s.statusTrue := by
+  have hi := linv_exec (linv_init p pol) h
+  exact ⟨hi.late_eq (by simp [ht, LPc.late]), hi.proc_eq (by simp [ht]), hi.pub_eq (by simp [ht])⟩
+
+/-- the task-stop exception never leaves the try block (it is swallowed: `loop_finalize` is entered with outcome
+"returned"), any other exception does, and then `loop_finalize` still runs first -/
+theorem loop_stop_exception_swallowed {p : Nat} {pol : Policy} {tr : List LAct} {s : LState} {o : Outcome}
+    (h : lexec (linit p pol) tr = some s) (hf : s.lpc = .finalize o) :
+    o ≠ .stopExc ∧ (o = .otherExc ↔ s.tryOther = true) ∧ s.finalizes = 0 ∧ s.prepared = true := by
+  have hi := linv_exec (linv_init p pol) h
+  refine ⟨?_, hi.fin_other o hf, ?_, ?_⟩
+  · intro ho; subst ho; exact hi.fin_nostop hf
+  · have := hi.fin_def; simp [hf, LPc.isDone] at this; exact this
+  · cases hp : s.prepared with
+    | true => rfl
+    | false => have := hi.unprepared hp; simp [hf, LPc.isDone] at this
+
+/-- how `run()` ends after `loop_finalize`: with finalize's own exception if it raised, else with what left the try
+block -/
+theorem loop_outcome_after_finalize {s s' : LState} {o r : Outcome} (hf : s.lpc = .finalize o)
+    (hs : lstep s (.hook .finalize r) = some s') :
+    s'.lpc = .done (if r = .ret then o else r) ∧ s'.finalizes = s.finalizes + 1 := by
+  simp only [lstep, hf] at hs
+  cases r <;> simp at hs <;> subst hs <;> simp
+
+/-- a stop request seen at the top of the loop ends it (then `loop_finalize`), nothing else of the iteration runs -/
+theorem loop_exits_when_stop_seen {s s' : LState} (hs : lstep s (.testStop true) = some s') :
+    s'.lpc = .finalize .ret ∧ s'.nUpd = s.nUpd ∧ s'.nIter = s.nIter := by
+  simp only [lstep] at hs
+  split at hs
+  · simp at hs; subst hs; simp
+  · contradiction
+
+/-- policy SKIP: after a missed period the next deadline is the first grid point after now — strictly in the
+future, at most one period away, and still on the grid `next_time + k·period` -/
+theorem skip_lands_on_next_grid_point {period next now : Nat} (hp : 0 < period) (hmiss : next ≤ now) :
+    now < next + period * periodsMissed period next now ∧
+    next + period * periodsMissed period next now ≤ now + period ∧
+    (next + period * periodsMissed period next now - next) % period = 0 := by
+  unfold periodsMissed
+  have h1 := Nat.div_add_mod (period + (now - next)) period
+  have h2 := Nat.mod_lt (period + (now - next)) hp
+  refine ⟨by omega, by omega, ?_⟩
+  rw [Nat.add_sub_cancel_left]
+  exact Nat.mul_mod_right _ _
+
+/-- the three policies at a missed period, as the model takes them (policy table) -/
+theorem missed_period_policy {s : LState} {now : Nat} (ht : s.lpc = .timing) (hm : s.next ≤ now) :
+    lstep s (.clock now) = some (match s.policy with
+      | .immediate => { s with lpc := .immClock }
+      | .skip      => { s with lpc := .top, next := s.next + s.period * periodsMissed s.period s.next now }
+      | .terminate => { s with lpc := .selfStop }) := by
+  have : ¬ now < s.next := by omega
+  simp only [lstep, ht, this, if_false]
+  cases s.policy <;> rfl
+
+/-- one full iteration with new settings, a missed period under SKIP, then a stop request: finalize ran once -/
+example : ∃ s, lexec (linit 4 .skip) [.hook .prepare .ret, .clock 100, .testStop false, .updDone true,
+    .hook .process .ret, .hook .iteration .ret, .statusDone true, .hook .pubStatus .ret, .hook .pubSignals .ret,
+    .clock 113, .testStop true, .hook .finalize .ret] = some s ∧ s.lpc = .done .ret ∧ s.finalizes = 1 ∧ s.next = 116 :=
+  ⟨_, rfl, by decide⟩
+/-- `loop_iteration` raises: finalize runs, the exception propagates -/
+example : ∃ s, lexec (linit 4 .immediate) [.hook .prepare .ret, .clock 100, .testStop false, .updDone false,
+    .hook .iteration .otherExc, .hook .finalize .ret] = some s ∧ s.lpc = .done .otherExc ∧ s.finalizes = 1 :=
+  ⟨_, rfl, by decide⟩
+/-- `loop_prepare` raises: no finalize -/
+example : ∃ s, lexec (linit 4 .immediate) [.hook .prepare .otherExc] = some s ∧ s.lpc = .done .otherExc ∧
+    s.finalizes = 0 ∧ s.prepared = false := ⟨_, rfl, by decide⟩
 
 end QmiModel.Task
